@@ -295,6 +295,8 @@ def bundle(kind, tier, seed):
             except (OSError, IndexError):
                 pass
             meta['error'] = 'the harness did not finish generating and running the cases within its time budget (a library call that never returns?)'
+        elif rc == 4:
+            meta['error'] = 'a generator family of the harness panicked while running the library to choose events (part of the cases is missing): ' + ' '.join(l for l in out.split('\n') if 'generator family' in l)[:300]
         elif rc not in (0, 3):
             meta['error'] = 'harness exited with %d' % rc
         # corpus first in spirit: the committed witnesses are always part of the bundle
